@@ -36,6 +36,16 @@ def scratch_root():
     if _scratch_root is None:
         base = '/dev/shm' if os.path.isdir('/dev/shm') and os.access('/dev/shm', os.W_OK) \
             else os.environ.get('TMPDIR', tempfile.gettempdir())
+        # scratch directories of runs that were killed (no atexit) are removed once they are older than the longest budget
+        try:
+            now = time.time()
+            for n_ in os.listdir(base):
+                if n_.startswith('verif-'):
+                    p_ = os.path.join(base, n_)
+                    if now - os.path.getmtime(p_) > 9 * 3600:
+                        shutil.rmtree(p_, ignore_errors=True)
+        except OSError:
+            pass
         _scratch_root = tempfile.mkdtemp(prefix='verif-', dir=base)
         atexit.register(lambda: shutil.rmtree(_scratch_root, ignore_errors=True))
     return _scratch_root
